@@ -4,8 +4,13 @@ import FqModel.Scalar
 import FqModel.C02Call
 /-! driver for C02
 
-  `rd <L> <hex> <pos> <be|le> <Method> <args…>` TAB `<outcome> <pos'> [c<start>:<len>|c-]`
-     (format: see harness/cmd/c02/main.go)
+  `rd [<shape>] <L> <hex> <pos> <be|le> <Method> <args…>` TAB `<outcome> <pos'> [c<start>:<len>|c-] nx:<k>:<v>`
+     (format: see harness/cmd/c02/main.go).  <shape> = how the input bits were delivered to the decoder
+     (MultiReader parts, SectionReader of a MultiReader, short-reading reader): the expected result does
+     not depend on it — justified by C01 `readFull_exact` / `readFull_eof` (any well-formed reader
+     composition reads its denotation) — so the model and the predicate ignore it; it is only checked
+     for well-formedness.  nx = a following TryUintBits(k) at the position the call left: it must
+     return the k bits at that position.
 
   verdict = the property predicate evaluated on the implementation's observation (`propVerdict`,
   written against the mathematical definitions — `ofBitsBE` of the slice, two's complement,
@@ -87,6 +92,22 @@ def parseField (s : String) : Option (Option (Nat × Nat)) :=
       pure (some (a, l))
     | _ => none
   else none
+
+/-- the trailing `nx:<k>:<v>` / `nx:e` token: (k, v) of the following read; `none` = it failed -/
+def parseNx (s : String) : Option (Option (Nat × Nat)) :=
+  match s.splitOn ":" with
+  | ["nx", "e"] => some none
+  | ["nx", k, v] => do
+    let k ← k.toNat?
+    let v ← v.toNat?
+    pure (some (k, v))
+  | _ => none
+
+def splitNx (obs : String) : String × Option String :=
+  let ws := words obs
+  match ws.getLast? with
+  | some l => if l.startsWith "nx:" then (" ".intercalate ws.dropLast, some l) else (obs, none)
+  | none => (obs, none)
 
 def parseObs (obs : String) : Option Obs :=
   match words obs with
@@ -220,6 +241,34 @@ def expectOf (bs : Bits) (pos : Nat) (fn : CoreFn) (av : List ArgVal) : Option E
       let v := signedOf (7 * ps.length) (lebValue ps)
       if -(2 ^ 63 : Int) ≤ v ∧ v < (2 ^ 63 : Int) then some { sat := true, consumed := 8 * ps.length, value := some (.s v) }
       else some { sat := false }
+  -- text: the frame by its definition (not the model's framing functions), decoded by `decodeText`
+  | .tryText, [.int n, .enc e] =>
+    if n < 0 ∨ pos > L ∨ pos + 8 * n.toNat > L then some { sat := false } else
+    some { sat := true, consumed := 8 * n.toNat, value := some (.t (decodeText e (byteVals (slice bs pos (8 * n.toNat))))) }
+  | .tryTextNullLen, [.int n, .enc e] =>
+    if n < 0 ∨ pos > L ∨ pos + 8 * n.toNat > L then some { sat := false } else
+    some { sat := true, consumed := 8 * n.toNat,
+           value := some (.t (decodeText e ((byteVals (slice bs pos (8 * n.toNat))).takeWhile (· ≠ 0)))) }
+  | .tryTextNull, [.int cb, .enc e] =>
+    -- the string ends at the FIRST all-zero unit on the grid pos + k·(8·cb); value = the bytes before it
+    if cb < 1 then some { sat := false } else
+    let unit := 8 * cb.toNat
+    let ks := (List.range ((L - pos) / unit + 1)).filter fun k => pos + (k + 1) * unit ≤ L
+    match ks.find? fun k => (slice bs (pos + k * unit) unit).all (· == false) with
+    | none => some { sat := false }
+    | some k => some { sat := true, consumed := (k + 1) * unit,
+                       value := some (.t (decodeText e (byteVals (slice bs pos (k * unit))))) }
+  | .tryTextLenPrefixed, [.int 1, .int fx, .enc e] =>
+    if pos + 8 > L then some { sat := false } else
+    let len := ofBitsBE (slice bs pos 8)
+    if fx = -1 then
+      if pos + 8 + 8 * len > L then some { sat := false } else
+      some { sat := true, consumed := 8 + 8 * len, value := some (.t (decodeText e (byteVals (slice bs (pos + 8) (8 * len))))) }
+    else if fx < 1 ∨ pos + 8 * fx.toNat > L then some { sat := false }
+    else
+      let field := fx.toNat - 1
+      some { sat := true, consumed := 8 * fx.toNat,
+             value := some (.t (decodeText e ((byteVals (slice bs (pos + 8) (8 * field))).take (min len field)))) }
   | _, _ => none
 
 inductive PV | holds | fail (why : String) | known (key why : String)
@@ -267,17 +316,61 @@ def rawCall (bs : Bits) (pos : Nat) (method : String) (av : List ArgVal) : Optio
     some ⟨if n < 0 then .err .other pos else (tryBits bs pos n.toNat).map fun b => .bits n.toNat (byteVals b), none⟩
   | _, _ => none
 
-def stepC02 (op obs : String) : String :=
+def shapeOk (sh : String) (L : Nat) : Bool :=
+  let ints (t : String) : Option (List Nat) := if t.isEmpty then some [] else (t.splitOn ",").mapM (·.toNat?)
+  let sortedIn (bs : List Nat) : Bool := bs.all (· ≤ L) && (bs.zip (bs.drop 1)).all fun (a, b) => a ≤ b
+  match sh.splitOn ":" with
+  | ["m", bs] => match ints bs with
+    | some bs => sortedIn bs
+    | none => false
+  | ["s", off, bs] => match off.toNat?, ints bs with
+    | some _, some bs => sortedIn bs
+    | _, _ => false
+  | ["k", k] => match k.toNat? with
+    | some k => k ≥ 1
+    | none => false
+  | _ => false
+
+/-- the read after the call: k = min(16, bits left) bits at the position the call left -/
+def nxVerdict (bs : Bits) (p : Nat) (nx : Option String) : Option String :=
+  match nx with
+  | none => none
+  | some t =>
+    match parseNx t with
+    | none => some "BADOP nx"
+    | some none => some "PROPFAIL the read following the call failed"
+    | some (some (k, v)) =>
+      let want := min 16 (bs.length - p)
+      if k ≠ want then some s!"PROPFAIL following read of {k} bits, {want} expected at position {p}"
+      else if v ≠ ofBitsBE (slice bs p k) then some s!"PROPFAIL following read at position {p} returned {v}, the bits there are {ofBitsBE (slice bs p k)}"
+      else none
+
+def posOfRes : Res Val → Nat
+  | .ok _ p => p
+  | .err _ p => p
+  | .ioerr _ p => p
+  | .panic _ p => p
+
+def stepC02 (op0 obs0 : String) : String :=
+  -- optional shape word after `rd`
+  let (op, shape) : String × Option String := match words op0 with
+    | "rd" :: w :: rest => if w.toNat?.isSome then (op0, none) else (" ".intercalate ("rd" :: rest), some w)
+    | _ => (op0, none)
+  let (obs, nx) := splitNx obs0
   match words op with
   | "rd" :: sL :: hex :: spos :: sEnd :: method :: args =>
     match sL.toNat?, bytesOfHex hex, spos.toNat?, parseArg sEnd, args.mapM parseArg with
     | some L, some bytes, some pos, some (.endian cur), some av =>
       let all := bytesToBits bytes
       if L > all.length then "BADOP L-beyond-hex" else
+      if (match shape with | some sh => !shapeOk sh L | none => false) then "BADOP shape" else
       let bs := all.take L
       match parseObs obs with
       | none => s!"BADOP obs {obs}"
       | some impl =>
+        match nxVerdict bs (posOfRes impl.res) nx with
+        | some v => v
+        | none =>
         match rawCall bs pos method av with
         | some m => if obsEq m impl then "OK" else s!"DIVERGE model={showObs m}"
         | none =>
